@@ -145,9 +145,20 @@ def engine_scenario(sh: Shard, seed, idx):
                 for j in range(r.randrange(5, 40)):
                     peer.sendto(b"nothing-%d" % j, sock._socket.addr)
                 sh.count("send_batches_with_incoming_flood")
+        # one datagram of the batch is refused by the OS when its turn comes: it is lost, the order
+        # of all the others is unchanged and the engine carries on
+        refused_one = None
+        plain = [q for q in queued if q[0] != b"SHARED"]
+        if plain and r.random() < 0.35 and sock._send_handlers:
+            refused_one = r.choice(plain)
+            sock._socket.fail_sends.append(refused_one[0])
+            sh.count("fifo_batches_with_a_refused_send")
         s.run_until(lambda: not sock._send_handlers, 10)
         s.sleep(0.1)
         out = sock._socket.sent[base:]
+        if refused_one is not None and sock._socket.refused:
+            queued = [q for q in queued if q != refused_one]
+        sock._socket.fail_sends.clear()
         sh.evaluations += 1
         wit = {"scenario": label, "queued": len(queued), "sent": len(out)}
         if [(d, tuple(a)) for _, d, a in out] != queued:
@@ -476,6 +487,7 @@ def main(tier, seed):
     run.need(run.counters.get("dispatches_after_which_handler_raised", 0) > 10, "no raising handler exercised")
     run.need(run.counters.get("unanswered_requests_ok", 0) + run.counters.get("answered_requests_ok", 0) > 50, "too few request lifetimes observed")
     run.need(run.counters.get("handshakes_completed", 0) > 30, "too few handshakes completed")
+    run.need(run.counters.get("fifo_batches_with_a_refused_send", 0) >= 5, "no FIFO batch with a send refused by the OS")
     run.need(run.counters.get("handshake_attempts_losing_the_final_segment", 0) >= 3, "no handshake attempt lost the final status segment")
     run.need(run.counters.get("line_events_injected", 0) > 5000, "stress: yield injection saw too few line events")
     run.need(run.counters.get("raising_sends_queued", 0) > 10, "no raising send was queued")
